@@ -106,7 +106,7 @@ type addr string
 func (a addr) Network() string { return "verif" }
 func (a addr) String() string  { return string(a) }
 
-func (c *Conn) LocalAddr() net.Addr                { return addr("server") }
+func (c *Conn) LocalAddr() net.Addr { return addr("server") }
 func (c *Conn) RemoteAddr() net.Addr {
 	if c.name != "" {
 		return addr(c.name)
